@@ -215,7 +215,17 @@ def oracle(plan, out):
     if meta["last_up"] is not None:
         res = [(p, tunnel_ok(R, byid[p])) for p in meta["probes"] if p in present]
         first_ok = next((k for k, (p, ok) in enumerate(res) if ok), None)
-        if res and (first_ok is None or first_ok >= K_ATTEMPTS):
+        # requests that were sent to the faulty upstream while it was down (they start a connection attempt)
+        down_reqs = [t["at"] for t in meta["tunnels"] if not t["healthy"] and t["cid"] in present and not t["cid"].startswith("probe")
+                     and any(d <= t["at"] < u for d, u in meta["windows"] if u is not None)]
+        if res and first_ok is not None and first_ok >= K_ATTEMPTS and meta["kind"] == "quic" and down_reqs and \
+                byid[res[first_ok][0]]["at"] - meta["last_up"] <= meta["last_up"] - min(down_reqs):
+            # recovered, but only after as long as the oldest connection attempt had been pending: the QUIC connector's
+            # single attempt (made under the connector's lock) is retransmitted with exponential back-off
+            v("slow-recovery-pending-attempt", "upstream healed at %.3fs; probes every 10 s: %s - the first success came %.0fs after the heal; a request had started a "
+              "connection attempt at %.3fs, while the upstream was down" % (meta["last_up"] / 1e3, "".join("+" if ok else "-" for p, ok in res),
+                                                                            (byid[res[first_ok][0]]["at"] - meta["last_up"]) / 1e3, min(down_reqs) / 1e3))
+        elif res and (first_ok is None or first_ok >= K_ATTEMPTS):
             v("no-recovery", "upstream healed at %.3fs; probes every 10 s: %s - none of the first %d attempts succeeded" % (
                 meta["last_up"] / 1e3, "".join("+" if ok else "-" for p, ok in res), K_ATTEMPTS))
         elif res:
